@@ -1369,10 +1369,10 @@ func (w *world) runString(s string, sts []setting) (wrongIndex bool) {
 // seed-chosen longer near-numeric strings
 // ---------------------------------------------------------------------------
 
-var interesting = []int64{0, 1, 2, 6, 7, 8, 9, 10, 15, 16, 17, 255, 256, 1023, 1024, 1025, 2050, -1, -2, -4, -5, -6, -1024}
+var interesting = []int64{0, 1, 2, 3, 6, 7, 8, 9, 10, 15, 16, 17, 63, 64, 255, 256, 1025, 2050, -1, -2, -4, -5, -6, -1024}
 
 // rare: every legitimate index above a few hundred costs that many slots
-var interestingLarge = []int64{65535, 65536, 65537, 131074, 4095, 40000, -65536}
+var interestingLarge = []int64{1023, 1024, 65535, 65536, 65537, 131074, 4095, 40000, -65536}
 
 const mutAlphabet = "-+0123456789xXbBoO_aAfF. e"
 
@@ -1432,7 +1432,7 @@ func (check) Run(seed int64, tier string, idx int, verbose bool) harness.Result 
 	w.val = int64(1 + r.Intn(5)) // never 7 (nameValue) and never >= 100
 	w.capTop, w.capInterior = 1100, 300
 	if tier == "thorough" {
-		w.capTop, w.capInterior = 4096, 4096
+		w.capTop, w.capInterior = 1100, 1100
 	}
 	w.sigSeen = map[string]int{}
 	w.arm(1 << 17)
